@@ -52,13 +52,15 @@ def replay_vxc(wit):
     worst = 0.0
     rows = []
     for p in range(n_spin.shape[1]):
-        h = 1e-5 * max(n_spin[s, p], 1e-12)
+        h = 1e-5 * n_spin[s, p] if n_spin[s, p] > 0 else 1e-17
         a, b = n_spin.copy(), n_spin.copy()
         a[s, p] += h
         b[s, p] -= h
         fd = (_energy(get_xc, wit, a, dn)[0][p] - _energy(get_xc, wit, b, dn)[0][p]) / (2 * h)
         rel = abs(fd - vxc[s, p]) / max(abs(fd), abs(vxc[s, p]), 1e-12)
-        rows.append(dict(point=p, finite_difference=float(fd), vxc=float(vxc[s, p]), rel_err=float(rel)))
+        # round-off of the difference quotient relative to the derivative: eps |n exc| / (|vxc| 2h); above 1e-6 the quotient is noise
+        noise = 2.2e-16 * abs(e0[p]) / max(abs(vxc[s, p]) * 2 * h, 1e-300)
+        rows.append(dict(point=p, finite_difference=float(fd), vxc=float(vxc[s, p]), rel_err=float(rel), quotient_noise=float(noise)))
         worst = max(worst, rel)
     return bool(worst > 1e-5), dict(check="vxc[s] vs central difference of n*exc (native float64)", rows=rows)
 
@@ -107,3 +109,42 @@ def replay_finite(wit):
             bad[name] = np.asarray(a).tolist()
     return bool(bad), dict(check="np.isfinite on native get_xc outputs with one spin density exactly zero",
                            n_spin=n_spin.tolist(), non_finite=bad)
+
+
+def native_scan(f, Nspin, kind, s, T=None):
+    """Native scan of the derivative identity on a FIXED set of points that includes the corners a random sample does not reach:
+    densities over ten orders of magnitude and, for Nspin = 2, polarisations up to 1 - |zeta| = 1e-9, non-parallel spin gradients.
+    Used when an exact proof is not available on the tree under check (trace outside the subset / budget exhausted): only a failing point is
+    a verdict (refutation by a concrete input), a clean scan proves nothing. Returns (violated?, info)."""
+    rng = np.random.default_rng(12345)
+    pts = []
+    zetas = [0.0] if Nspin == 1 else [0.0, 0.3, -0.6, 1 - 1e-3, -(1 - 1e-3), 1 - 1e-6, -(1 - 1e-6), 1 - 1e-7, -(1 - 1e-7), 1 - 1e-9, -(1 - 1e-9)]
+    for n in (1e-8, 1e-5, 1e-2, 0.4, 7.0):
+        for z in zetas:
+            env = {"n0": n, "n1": n * 1.3, "zeta0": z, "zeta1": z}
+            for sp in range(Nspin):
+                for p in range(2):
+                    g = rng.standard_normal(3) * n ** (4 / 3) * 2.0
+                    for c, v in zip("xyz", g):
+                        env[f"g{sp}{p}{c}"] = float(v)
+            if T == "pos":
+                env["T"] = 0.3
+            pts.append(env)
+    worst, worst_row = 0.0, None
+    for env in pts:
+        wit = dict(env=env, Nspin=Nspin, f=f, s=s, T=T, kind=kind)
+        try:
+            bad, info = (replay_vsigma if kind == "vsigma" else replay_vxc)(wit)
+        except Exception as e:  # noqa: BLE001
+            return True, dict(raised=f"{type(e).__name__}: {e}", at=env)
+        for row in info["rows"]:
+            noise = row.get("quotient_noise", 0.0)
+            if noise > 1e-5:
+                continue  # the float64 difference quotient cannot resolve this derivative (tiny minority density): not an oracle here
+            # tolerance of the finite-difference oracle: 1e-4 relative, widened to 1000 x its own round-off estimate where that is larger
+            # (the identity itself is exact; deviations of interest at these corners are of order one); NaN counts as a failure
+            r = row["rel_err"] / max(1.0, 1e7 * noise)
+            if not np.isfinite(r) or r > worst:
+                worst, worst_row = (float("inf") if not np.isfinite(r) else r), dict(row, n=env["n0"], zeta=env.get("zeta0"), scaled_rel_err=float(r))
+    return bool(worst > 1e-4), dict(check="fixed scan: densities 1e-8 .. 7, |zeta| up to 1 - 1e-9, non-parallel gradients; derivative vs central difference (tolerance 1e-4)",
+                                    points=len(pts), worst=worst_row)
